@@ -28,14 +28,14 @@ ASSUMPTIONS = ['vf/intalgos.py is correct (its independent formulations are cros
                '1 ulp = 2^(floor(log2|exact|) - p + 1), the unit of the binade of the exact value (both p-bit neighbours of the exact value are within 1 ulp); default rounding mode of the context (nearest)',
                'isprime is asserted in both directions below 3.4*10^14 and for primes above; composites above are outside the deterministic claim (noted)',
                'arguments outside the supported range (poles of the gamma quotient, negative orders, n > 10^30 in mangoldt) are not asserted']
-LEVEL_TEXT = ('exploration: ~1.2*10^5 (quick) / ~2*10^6 (thorough) calls on the real code over 20 functions, each result compared with an exact value '
+LEVEL_TEXT = ('exploration: ~2.7*10^4 (quick) / ~2*10^5 (thorough) calls on the real code over 20 functions, each result compared with an exact value '
               'computed by an independent integer algorithm; isprime additionally exhaustively below 2*10^5 (quick) / 3*10^6 (thorough)')
 LEVEL_NOTE = 'trusted base vf/intalgos.py + vf/exactq.py; arguments not generated are not covered'
 TECHNIQUE = 'runtime reference-model monitor: independent exact integer oracle on every observed result, caches exercised by interleaved call histories'
 SHARD_TIMEOUT = {'quick': 600, 'thorough': 3000}
 
 NSHARDS = 16
-NRANDOM = {'quick': 60, 'thorough': 700}           # random argument tuples per function per shard
+NRANDOM = {'quick': 60, 'thorough': 400}           # random argument tuples per function per shard
 PRIME_RANGE = {'quick': 200000, 'thorough': 3000000}
 
 DET_BOUND = 340000000000000      # "deterministically below 3.4*10^14"
@@ -293,6 +293,10 @@ def argument_sum_rounded(fn, args, p):
     elif fn == 'ff':
         x, n = args
         mids = (x + 1, x - n, x - n + 1)
+    elif fn == 'fac2':
+        # fac2 evaluates x/2 and x/2 + 1 at the working precision p + 10 of the wrapper: 2^(x/2) and gamma(x/2+1) are taken at rounded arguments
+        x = args[0]
+        return _needs_more_than(x, p + 10) or _needs_more_than(x + 2, p + 10)
     else:
         return False
     return any(_needs_more_than(m, 2 * p) for m in mids)
@@ -346,8 +350,8 @@ def run_mpf_case(mp, rec, r, fn, args, p, exact_flag=False):
     if not ok:
         sev = None if milli is None else int(milli)
         if argument_sum_rounded(fn, args, p):
-            rec.violation('C25/%s/argument-sum-exceeds-2p-bits' % fn,
-                          '%s%r at %d bits: an integer argument sum does not fit in 2*prec bits and is rounded before the gamma quotient is taken' % (fn, tuple(args), p),
+            rec.violation('C25/%s/%s' % (fn, 'argument-half-exceeds-working-precision' if fn == 'fac2' else 'argument-sum-exceeds-2p-bits'),
+                          '%s%r at %d bits: an integer argument expression (n+1, n-k+1, x+n, x/2+1 ...) does not fit in the bits it is formed with and is rounded before gamma is taken' % (fn, tuple(args), p),
                           case, observed=got._mpf_, expected=str(exact)[:300])
             return
         rec.violation(key + ('fits' if fits else 'rounded'),
@@ -447,7 +451,8 @@ def run_int_primitive(libmp, rec, name, n):
     exp = {'ifac': I.factorial, 'ifac2': lambda k: int(I.fac2(k)), 'ifib': I.fib}[name](n)
     rec.case(('libmp.' + name, n), n > 20, cls='libmp.%s/%s/exact-int' % (name, bucket(n)))
     try:
-        got = getattr(libmp, name)(n)
+        import mpmath.libmp.libintmath as lim
+        got = getattr(lim, name)(n)
     except Exception as e:
         got = repr(e)
     if isinstance(got, bool) or not isinstance(got, int) or got != exp:
@@ -601,6 +606,13 @@ def run_shard(shard, rec):
                 work.append(('libmp.' + name, (v,)))
             for _ in range(max(3, shard['n'] // 6)):
                 work.append(('libmp.' + name, (r.choice([r.randint(0, 30), r.randint(0, 300), r.randint(990, 1010), r.randint(0, 2500)]),)))
+        # seed-independent (function, arguments, precision) cases: the witnesses of the recorded findings and the docstring's
+        # large-argument examples, so that a known mechanism is met (or, once fixed, re-checked) on every seed alike
+        if shard['shard'] == 0:
+            for fn_, a_, p_ in [('binomial', (10**40, 3), 53), ('binomial', (2**106 + 1, 1), 53), ('binomial', (1000, 1000), 2), ('rf', (10**33 + 1, 2), 53),
+                                ('rf', (5, 0), 1), ('ff', (10**33 + 1, 2), 53), ('ff', (268, 2), 3), ('fac2', (2151,), 1), ('fac2', (65537,), 5), ('fac2', (65539,), 5),
+                                ('binomial', (10**20, 10**20 - 5), 53), ('binomial', (10**20, 5), 53), ('factorial', (10**4,), 53), ('fib', (10**4,), 53)]:
+                work.append(('fixed-prec', (fn_, a_, p_)))
         r.shuffle(work)
         # histories: on odd shards warm the caches from the top first, on even shards the sequence starts cold
         if shard['shard'] % 2:
@@ -613,6 +625,8 @@ def run_shard(shard, rec):
                 run_mangoldt(mp, rec, a[0], r.choice([53, 53, G.pick_prec(r, big=False)]))
             elif fn.startswith('libmp.'):
                 run_int_primitive(libmp, rec, fn[6:], a[0])
+            elif fn == 'fixed-prec':
+                run_mpf_case(mp, rec, None, a[0], a[1], a[2])
             elif fn == 'bernoulli-chain':
                 rec.event('bernoulli cache-chain calls')
                 run_mpf_case(mp, rec, None, 'bernoulli', (a[0],), a[1])
